@@ -45,15 +45,28 @@ def idToMonth (id : Int) (beginning : Bool := true) : Date :=
     let id := id + 1
     (Date.mk (1970 + id / 12) ((id % 12).toNat + 1) 1).pred
 
+/-- `sub in s` for Python strings, on character lists (structural recursion, so that the kernel can
+evaluate it: `String.splitOn` is not kernel-reducible) -/
+def isPrefixL : List Char → List Char → Bool
+  | [], _ => true
+  | _ :: _, [] => false
+  | a :: as, b :: bs => a == b && isPrefixL as bs
+
+def hasInfixL (sub : List Char) : List Char → Bool
+  | [] => sub.isEmpty
+  | c :: cs => isPrefixL sub (c :: cs) || hasInfixL sub cs
+
+/-- `sub in s.lower()` (ASCII lower-casing, as the unit spellings are ASCII) -/
+def lowerHas (s sub : String) : Bool := hasInfixL sub.toList (s.toList.map Char.toLower)
+
 inductive LagUnit where | month | day | timedelta
 deriving DecidableEq, Repr, Inhabited
 
 /-- unit dispatch of `calculate_dev_lag` (`"month" in unit`, `"day" in unit`, `== "timedelta"`) -/
 def LagUnit.parse? (u : String) : Option LagUnit :=
-  let u := u.toLower
-  if (u.splitOn "month").length > 1 then some .month
-  else if (u.splitOn "day").length > 1 then some .day
-  else if u == "timedelta" then some .timedelta
+  if lowerHas u "month" then some .month
+  else if lowerHas u "day" then some .day
+  else if u.toList.map Char.toLower == "timedelta".toList then some .timedelta
   else none
 
 /-- `calculate_dev_lag(period_end, evaluation_date, unit)` for evaluation dates below `date.max`;
@@ -70,8 +83,7 @@ deriving DecidableEq, Repr, Inhabited
 
 /-- `standardize_resolution((quantity, units))` -/
 def standardizeResolution (q : Int) (units : String) : Except Err (Int × ResUnit) :=
-  let u := units.toLower
-  let has (s : String) : Bool := (u.splitOn s).length > 1
+  let has (s : String) : Bool := lowerHas units s
   if has "month" then .ok (q, .month)
   else if has "quarter" then .ok (q * 3, .month)
   else if has "year" then .ok (q * 12, .month)
